@@ -138,8 +138,12 @@ def copy_laws(line, out):
         if oe is None:
             return False       # an entry of the source has no image
         if q in pe:
-            if kind(oe) != kind(pe[q]):
-                return False   # an entry that already existed is kept
+            # an entry that already existed is kept (its kind, and its mode unless a chmod option selects it), but it
+            # is still the image of the source entry: same kind, and a file carries the source's content
+            if kind(oe) != kind(pe[q]) or kind(oe) != kind(e):
+                return False
+            if kind(e) == "file" and post["data"].get(q) != pre["data"].get(p):
+                return False
             continue
         if kind(oe) != kind(e):
             return False
